@@ -144,3 +144,62 @@ def note(res, what):
     if msg not in res.notes:
         res.notes.append(msg)
     return st
+
+
+# ------------------------------------------------------------------------------------------------------------------
+# the validation tie: `_check_teams` and the head of `rate`, translated into the embedded statement language (OSModel/VLang.lean)
+COMMITTED_VAL = os.path.join(LEAN_DIR, "OSProofs", "GenValTie.lean")
+_CACHE_VAL = None
+
+
+def validation_status():
+    """dict(status identical|recompiled|tie-broken|untranslatable, detail)"""
+    global _CACHE_VAL
+    if _CACHE_VAL is not None:
+        return _CACHE_VAL
+    import py2lean
+    out = dict(status="identical", detail="")
+    try:
+        txt = py2lean.render_validation(core.REPO)
+    except Exception as e:  # noqa: BLE001
+        out.update(status="untranslatable", detail="%s: %s" % (type(e).__name__, e))
+        _CACHE_VAL = out
+        return out
+    untrans = re.findall(r"^-- UNTRANSLATABLE (\S+): (.*)$", txt, flags=re.M)
+    committed = open(COMMITTED_VAL).read() if os.path.exists(COMMITTED_VAL) else ""
+    if txt == committed and not untrans:
+        _CACHE_VAL = out
+        return out
+    if untrans:
+        out.update(status="untranslatable", detail="; ".join("%s (%s)" % u for u in untrans)[:600])
+        _CACHE_VAL = out
+        return out
+    fd, tmp = tempfile.mkstemp(prefix="GenValTie_", suffix=".lean")
+    try:
+        os.write(fd, txt.encode()); os.close(fd)
+        p = subprocess.run(["lake", "env", "lean", tmp], cwd=LEAN_DIR, stdout=subprocess.PIPE, stderr=subprocess.STDOUT, timeout=600)
+        log = p.stdout.decode()
+    finally:
+        try:
+            os.unlink(tmp)
+        except OSError:
+            pass
+    if p.returncode == 0:
+        out.update(status="recompiled", detail="the source text changed; the retranslated programs are still the canonical ones")
+    else:
+        names = sorted(set(re.findall(r"(checkTeams_\w+|rateHead_\w+)", "\n".join(l for l in log.split("\n") if "error" in l))))
+        out.update(status="tie-broken", detail="the validation code as written is no longer the program the tie theorems are about (%s)" % (", ".join(names) or log[-300:]))
+    _CACHE_VAL = out
+    return out
+
+
+def note_validation(res):
+    st = validation_status()
+    res.count("static_tie_validation_" + st["status"])
+    msg = "static tie (validation): " + {
+        "identical": "_check_teams and the head of rate of all five classes, translated from the current source into the embedded statement language, are the "
+                     "committed programs of OSProofs/GenValTie.lean, proved to compute checkTeams / validateRate for every argument triple",
+        "recompiled": st["detail"]}.get(st["status"], st["status"] + " — " + st["detail"] + "; not an alarm by itself: the systematic grammar of this check is the search")
+    if msg not in res.notes:
+        res.notes.append(msg)
+    return st
